@@ -1005,8 +1005,20 @@ const AUTHOR_BYTES: std::ops::Range<usize> = 32..64;
 const KEY_BYTES: std::ops::RangeFrom<usize> = 64..;
 
 /// The identifier of a record.
-#[derive(Clone, Serialize, Deserialize, PartialEq, Eq, PartialOrd, Ord)]
+#[derive(Clone, Serialize, PartialEq, Eq, PartialOrd, Ord)]
 pub struct RecordIdentifier(Bytes);
+
+impl<'de> Deserialize<'de> for RecordIdentifier {
+    fn deserialize<D: serde::Deserializer<'de>>(deserializer: D) -> Result<Self, D::Error> {
+        // Same encoding as the derived impl for the newtype, but an identifier received from a
+        // peer must at least hold the namespace and author ids: the accessors slice into it.
+        let bytes = Bytes::deserialize(deserializer)?;
+        if bytes.len() < KEY_BYTES.start {
+            return Err(serde::de::Error::custom("record identifier is too short"));
+        }
+        Ok(Self(bytes))
+    }
+}
 
 impl Default for RecordIdentifier {
     fn default() -> Self {
